@@ -41,7 +41,7 @@ def run(case):
                 if d is None:
                     ev = Event("msg", 0, rid, data=tag); extra = 0
                 else:
-                    ev = DelayedEvent("msg", 0, rid, delay=d * dt, data=tag); extra = d   # ceil((d*dt)/dt) = d
+                    ev = DelayedEvent("msg", 0, rid, delay=d * dt, data=tag); extra = int(math.ceil(d))   # ceil((d*dt)/dt)
                 m.enqueue_event(ev)
                 expected.append([tag, rid, g + extra])
             elif k == "delete":
@@ -92,7 +92,7 @@ def gen(rnd):
         for _ in range(rnd.randint(0, 3)):
             r = rnd.random()
             if r < 0.6:
-                d = None if rnd.random() < 0.5 else rnd.randint(0, 3)
+                d = None if rnd.random() < 0.5 else rnd.choice([0, 1, 2, 3, 0.5, 1.5, 2.25])
                 ops.append((g, 'send', ('p' if d is None else 'd') + str(tag), rnd.randint(0, nxt), d))
                 tag += 1
             elif r < 0.75:
